@@ -3,9 +3,11 @@ import St4sd.Model.Loop
 import St4sd.Model.LoopMulti
 /-! Model driver for property C05 (DoWhile unrolling).
 
-Request `{"op":"runm","num":bool,"docs":[doc…],"out":[comp…],"ops":[["adv",i] | ["read"] …]}` →
+Request `{"op":"runm","num":bool,"docs":[doc…],"out":[comp…],"ops":[["adv",i] | ["read"] …],"sparse":bool?}` →
 `{"steps":[snapshot_0 … snapshot_n]}`: snapshot_0 describes the model workflow as loaded, snapshot_j the workflow
-after the first `j` operations (`Loop.runOps`).
+after the first `j` operations (`Loop.runOps`); with `sparse` only snapshot_0 and snapshot_n.  `freshEdges` of a
+snapshot are the edges of ONE graph construction over its components (`Loop.edgesOfM`: what a reload of the stored
+instance builds), `edges` those accumulated by the iterations.
 
 Request `{"op":"run","num":bool,"k":n,"doc":{…},"out":[comp…]}` (one document, `Loop.run`) →
 `{"steps":[snapshot_0 … snapshot_k]}`. -/
@@ -64,6 +66,7 @@ def snapshotM (num : Bool) (ds : List Doc) (w : Wf) : Json :=
   jobj [
     ("comps", jarr (cs.map fun c => jobj [("id", jid c.id), ("refs", jarr (c.refs.map jref)), ("args", jarr (c.args.map jref))])),
     ("edges", jarr (w.edges.map fun e => jarr [jid e.1, jid e.2])),
+    ("freshEdges", jarr ((edgesOfM ds cs).map fun e => jarr [jid e.1, jid e.2])),
     ("placeholders", jarr ((placeholdersM num ds cs).map fun q =>
         let p := q.2
         jobj [("id", jid p.id), ("represents", jarr (p.represents.map jid)), ("latest", jopt jid p.latest),
@@ -104,7 +107,15 @@ def handle (j : Json) : Except String Json := do
     let ds ← (← getArr j "docs").mapM parseDoc
     let out ← (← getArr j "out").mapM parseComp
     let ops ← (← getArr j "ops").mapM parseOp
-    return jobj [("steps", jarr ((runOpsAll ds (initM ds out) ops []).reverse.map (snapshotM num ds)))]
+    let sparse := match j.getObjVal? "sparse" with
+      | .ok (Json.bool b) => b
+      | _ => false
+    let all := (runOpsAll ds (initM ds out) ops []).reverse
+    -- `sparse`: only the workflow as loaded and the workflow after all operations
+    let shown := if sparse then (match all, all.getLast? with
+      | w0 :: _ :: _, some wn => [w0, wn]
+      | _, _ => all) else all
+    return jobj [("steps", jarr (shown.map (snapshotM num ds)))]
   | "run" =>
     let num ← getBool j "num"
     let k ← getNat j "k"
